@@ -210,8 +210,11 @@ AcceptRule(err) ==
     ELSE IF err = "enc_huff" THEN "C11.accepts_bad_huffman"
     ELSE "C11.accepts_integer_overflow"
 
+\* (discriminating field for reports: the block contains a literal with a zero-length name)
+HasEmptyName(is) == \E j \in 1..Len(is) : is[j].k \in {"incr", "noidx", "never"} /\ is[j].i = 0 /\ is[j].nl = 0
+
 OutcomeViols(c, exp, o, how) ==
-    LET inf(x) == [id |-> c.id, hex |-> c.hex, how |-> how, detail |-> x] IN
+    LET inf(x) == [id |-> c.id, hex |-> c.hex, how |-> how, detail |-> x, empty_name |-> HasEmptyName(c.ins)] IN
     IF ~o.ok THEN <<>>
     ELSE IF exp.err # "" THEN <<V(AcceptRule(exp.err), inf(exp.err))>>
     ELSE IF o.f # exp.out THEN <<V("C11.wrong_fields", inf("decoded field list differs from RFC 7541"))>>
@@ -226,7 +229,7 @@ SplitViols(c, exp, ss, j) ==
          \o (IF Same(c.whole, s.o) THEN <<>>
              ELSE <<V(IF exp.err # "" THEN "C11.split_differs_on_invalid_block" ELSE "C11.split_differs_on_valid_block",
                       [id |-> c.id, hex |-> c.hex, cuts |-> s.ex, whole_ok |-> c.whole.ok, whole_err |-> c.whole.err,
-                       split_ok |-> s.o.ok, split_err |-> s.o.err, rfc |-> exp.err])>>)
+                       split_ok |-> s.o.ok, split_err |-> s.o.err, rfc |-> exp.err, empty_name |-> HasEmptyName(c.ins)])>>)
          \o SplitViols(c, exp, ss, j + 1)
 
 CheckDec(c) ==
